@@ -122,25 +122,25 @@ CLAIMS["C17"] = dict(
 # what the three waves of independently seeded changes added (DESIGN.md §3 "Added after the seeded waves", §9)
 ADDED = {
     "C01": "live walk -- every configuration also reached by single changes on ONE instance in reflected Gray order (forwards and backwards) and compared with the fresh instance; choice family (selection precedence with hidden default members).",
-    "C02": "live-instance variant (history replayed with a complete read before and after every operation; what it writes must round-trip too); symbolic range bounds; CR / separator characters in strings.",
-    "C03": "oracle 'reads are pure' (same history without its reads gives the same observation); merge loads of tool-written files; targets with nothing but a dependency; prompt on the second definition.",
-    "C04": "families source_twice / source_nested / after_help / strlit (string literals from quotes, escapes, macro and environment references in 24 positions); every parse under a CPU-time limit (non-termination is an observation).",
-    "C05": "second search on ONE live instance evaluated after every operation (states merged on user state + memo-cell contents) under several read kinds; choices hidden by a choice-level or enclosing condition; `if` inside a choice.",
-    "C06": "upper bounds given by options (also value-less), option defined twice with a range per definition, range taken from the program text, live steps on an already evaluated instance.",
+    "C02": "live-instance variant (history replayed with a complete read before and after every operation; what it writes must round-trip too); symbolic range bounds; CR / separator characters in strings. Fourth wave: options following choice members, separators in the quick alphabet.",
+    "C03": "oracle 'reads are pure' (same history without its reads gives the same observation); merge loads of tool-written files; targets with nothing but a dependency; prompt on the second definition. Fourth wave: retired names with load_deprecated loads; every memoised Choice attribute; caches reset by hand in oracle (1).",
+    "C04": "families source_twice / source_nested / after_help / strlit (string literals from quotes, escapes, macro and environment references in 24 positions); every parse under a CPU-time limit (non-termination is an observation). Fourth wave: environment states of referenced variables.",
+    "C05": "second search on ONE live instance evaluated after every operation (states merged on user state + memo-cell contents) under several read kinds; choices hidden by a choice-level or enclosing condition; `if` inside a choice. Fourth wave: loads of files written for other states of the tree (both policies); select / imply of a member.",
+    "C06": "upper bounds given by options (also value-less), option defined twice with a range per definition, range taken from the program text, live steps on an already evaluated instance. Fourth wave: both parsers; several range lines per option.",
     "C07": "every configuration generated over its neighbours' outputs at the same paths; aliases switched off (write_deprecated=False); strings spelling a tristate letter; empty rename file.",
-    "C08": "trees reversed / multidef / strname; replacing loads on one instance; converse oracle 'inferred stays inferred' against the configuration that wrote the file.",
+    "C08": "trees reversed / multidef / strname; replacing loads on one instance; converse oracle 'inferred stays inferred' against the configuration that wrote the file. Fourth wave: stored member invisible in the new tree; load histories with a merge between replacing loads.",
     "C09": "linked choices; value-less range bounds; every tree also loaded under KCONFIG_WARN_UNDEF / KCONFIG_STRICT with an undefined reference (same verdict demanded).",
-    "C10": "each minimal config written over the previous one; string values that read like sdkconfig entries.",
-    "C11": "trees whose expressions mention the old names; prefix text inside names; rename files listed in and against path order / twice; composed sdkconfig files (text after the deprecated block, two blocks, unclosed block).",
+    "C10": "each minimal config written over the previous one; string values that read like sdkconfig entries. Fourth wave: non-default option prefix.",
+    "C11": "trees whose expressions mention the old names; prefix text inside names; rename files listed in and against path order / twice; composed sdkconfig files (text after the deprecated block, two blocks, unclosed block). Fourth wave: rename-file routes (list / environment / kconfgen CLI); undefined replacement mentioned in the tree.",
     "C12": "sessions of several sync_deps() by one instance over kept / emptied / removed / new directories; duplicated and re-targeted rename lines; tristate-looking string values.",
     "C13": "separator characters; histories of 2-3 changed saves with every crash point inside each; destination name shapes and sibling configurations; unchanged-output clause across kconfgen processes with different PYTHONHASHSEED.",
-    "C14": "symbolic ranges, choice trees, one prompt-hidden option per value type; combined requests; 'fresh server on the file this request saved' and 'after a load == fresh server on the loaded content' oracles.",
+    "C14": "symbolic ranges, choice trees, one prompt-hidden option per value type; combined requests; 'fresh server on the file this request saved' and 'after a load == fresh server on the loaded content' oracles. Fourth wave: failed load / save followed by null-path requests; pragma-like titles.",
     "C15": "strictly encoding byte-level stdout (utf-8 / ascii); unicode matrix incl. lone surrogates in every echoed position; numeric values beyond the representable range; console-markup strings; strict JSON replies.",
-    "C16": "load files differing only in a choice selection; falsy-looking values of every type.",
+    "C16": "load files differing only in a choice selection; falsy-looking values of every type. Fourth wave: choice members with their own dependencies.",
     "C17": "conditional range before the fallback range with typed values in the gap.",
-    "C18": "names at the documented length limits; odd characters inside texts; manglings of lines with a tab inside a quoted string; one-over-the-limit files as informational controls.",
-    "C19": "chain / deep / SPELL (IDF_PATH spellings incl. symlinks) / TWIN (equally named project directories) layout families.",
-    "C20": "rendered conditions read back with eval_string; mirror symbols; target-gated choice members referenced outside conditions; the generator's special menu names as menu title and as option prompt.",
+    "C18": "names at the documented length limits; odd characters inside texts; manglings of lines with a tab inside a quoted string; one-over-the-limit files as informational controls. Fourth wave: literals + trailing comments on expression lines; keywords inside quoted texts.",
+    "C19": "chain / deep / SPELL (IDF_PATH spellings incl. symlinks) / TWIN (equally named project directories) layout families. Fourth wave: CMakeLists.txt content shapes.",
+    "C20": "rendered conditions read back with eval_string; mirror symbols; target-gated choice members referenced outside conditions; the generator's special menu names as menu title and as option prompt. Fourth wave: reverse rows read modulo the right dependencies; twice-defined operands; several (unnamed) choices.",
 }
 for _k, _v in ADDED.items():
     CLAIMS[_k]["text"] += " Widened after three waves of independently seeded changes: " + _v
